@@ -636,255 +636,6 @@ func ruleT1T2(c *Ctx) {
 
 // ---------- C12-CLEAR / C12-REFRESH ----------
 
-func ruleC12Clear(c *Ctx) {
-	pk := c.P.ByRel["internal/workspace"]
-	info := pk.TypesInfo
-	wsObj := pk.Types.Scope().Lookup("Workspace")
-	if wsObj == nil {
-		c.undecided("C12-CLEAR", "workspace", "Workspace type", token.NoPos, "type Workspace not found")
-		return
-	}
-	st := wsObj.Type().Underlying().(*types.Struct)
-	// cache fields by role: fields of map type that some method returns directly after a nil test (memo getters)
-	cacheFields := map[string]bool{}
-	var resolvedField string
-	for i := 0; i < st.NumFields(); i++ {
-		f := st.Field(i)
-		if strings.HasSuffix(types.TypeString(f.Type(), nil), "include.ResolvedJournal") {
-			resolvedField = f.Name()
-		}
-	}
-	methods := map[string]*ast.FuncDecl{}
-	for _, f := range pk.Syntax {
-		for _, d := range f.Decls {
-			if fd, ok := d.(*ast.FuncDecl); ok && fd.Recv != nil && recvTypeName(fd) == "Workspace" && fd.Body != nil {
-				methods[fd.Name.Name] = fd
-			}
-		}
-	}
-	for _, fd := range methods {
-		recv := recvObj(info, fd)
-		ast.Inspect(fd.Body, func(x ast.Node) bool {
-			ifs, ok := x.(*ast.IfStmt)
-			if !ok {
-				return true
-			}
-			be, ok := ast.Unparen(ifs.Cond).(*ast.BinaryExpr)
-			if !ok || be.Op != token.NEQ {
-				return true
-			}
-			fld, ok := rootField(info, be.X, recv)
-			if !ok || identOf(be.Y).Name != "nil" {
-				return true
-			}
-			for _, s := range ifs.Body.List {
-				if r, ok := s.(*ast.ReturnStmt); ok && len(r.Results) == 1 {
-					if f2, ok := rootField(info, r.Results[0], recv); ok && f2 == fld {
-						if _, isMap := info.TypeOf(r.Results[0]).Underlying().(*types.Map); isMap {
-							cacheFields[fld] = true
-						}
-					}
-				}
-			}
-			return true
-		})
-	}
-	// the same memo idiom behind a helper that is handed the address of the field: `if *p != nil { return *p }`
-	// with p a parameter; the fields are the ones whose address is passed at the helper's call sites
-	for _, f := range pk.Syntax {
-		for _, d := range f.Decls {
-			fd, ok := d.(*ast.FuncDecl)
-			if !ok || fd.Body == nil || fd.Type.Params == nil {
-				continue
-			}
-			var params []types.Object
-			for _, fl := range fd.Type.Params.List {
-				for _, n := range fl.Names {
-					params = append(params, info.Defs[n])
-				}
-			}
-			memoParam := -1
-			for _, g := range guardsIn(fd.Body) {
-				be, ok := ast.Unparen(g.Cond).(*ast.BinaryExpr)
-				if !ok || be.Op != token.NEQ || identOf(be.Y).Name != "nil" {
-					continue
-				}
-				star, ok := ast.Unparen(be.X).(*ast.StarExpr)
-				if !ok {
-					continue
-				}
-				po := info.Uses[identOf(star.X)]
-				for i, q := range params {
-					if q != nil && q == po {
-						for _, st := range g.Body {
-							if r, ok := st.(*ast.ReturnStmt); ok && len(r.Results) == 1 {
-								if rs, ok := ast.Unparen(r.Results[0]).(*ast.StarExpr); ok && info.Uses[identOf(rs.X)] == po {
-									memoParam = i
-								}
-							}
-						}
-					}
-				}
-			}
-			if memoParam < 0 {
-				continue
-			}
-			fobj := info.Defs[fd.Name]
-			for _, f2 := range pk.Syntax {
-				ast.Inspect(f2, func(x ast.Node) bool {
-					call, ok := x.(*ast.CallExpr)
-					if !ok || calleeOf(info, call) != fobj || memoParam >= len(call.Args) {
-						return true
-					}
-					if u, ok := ast.Unparen(call.Args[memoParam]).(*ast.UnaryExpr); ok && u.Op == token.AND {
-						if se, ok := ast.Unparen(u.X).(*ast.SelectorExpr); ok {
-							if t := info.TypeOf(se.X); t != nil && strings.HasSuffix(types.TypeString(t, nil), "workspace.Workspace") {
-								if _, isMap := info.TypeOf(se).Underlying().(*types.Map); isMap {
-									cacheFields[se.Sel.Name] = true
-								}
-							}
-						}
-					}
-					return true
-				})
-			}
-		}
-	}
-	c.census("C12-CLEAR", "memoised derived caches of the workspace", len(cacheFields), 3)
-	if resolvedField == "" {
-		c.undecided("C12-CLEAR", "workspace.Workspace", "resolved tree field", token.NoPos, "no field of type *include.ResolvedJournal")
-		return
-	}
-	// per method: does it mutate the resolved tree / clear all caches (transitively through same-receiver calls)?
-	type summ struct {
-		mutates   bool
-		clearsAll bool // unconditionally (top-level statements or accepted flag idiom)
-		clears    map[string]bool
-	}
-	memo := map[string]*summ{}
-	var summarize func(name string, depth int) *summ
-	summarize = func(name string, depth int) *summ {
-		if s, ok := memo[name]; ok {
-			return s
-		}
-		s := &summ{clears: map[string]bool{}}
-		memo[name] = s
-		fd := methods[name]
-		if fd == nil || depth > 6 {
-			return s
-		}
-		recv := recvObj(info, fd)
-		// mutation anywhere in the body
-		ast.Inspect(fd.Body, func(x ast.Node) bool {
-			switch n := x.(type) {
-			case *ast.AssignStmt:
-				for _, l := range n.Lhs {
-					if f, ok := rootField(info, l, recv); ok && f == resolvedField {
-						s.mutates = true
-					}
-				}
-			case *ast.CallExpr:
-				if identOf(n.Fun).Name == "delete" && len(n.Args) == 2 {
-					if f, ok := rootField(info, n.Args[0], recv); ok && f == resolvedField {
-						s.mutates = true
-					}
-				}
-				if se, ok := ast.Unparen(n.Fun).(*ast.SelectorExpr); ok {
-					if id, ok := ast.Unparen(se.X).(*ast.Ident); ok && info.Uses[id] == recv {
-						if _, isM := methods[se.Sel.Name]; isM {
-							if summarize(se.Sel.Name, depth+1).mutates {
-								s.mutates = true
-							}
-						}
-					}
-				}
-			}
-			return true
-		})
-		// unconditional clears: top-level statements of the body (and of flag-guarded ifs, see below)
-		var scan func(list []ast.Stmt, flags map[types.Object]bool)
-		scan = func(list []ast.Stmt, flags map[types.Object]bool) {
-			for _, st := range list {
-				switch n := st.(type) {
-				case *ast.AssignStmt:
-					for i, l := range n.Lhs {
-						if f, ok := rootField(info, l, recv); ok && cacheFields[f] && i < len(n.Rhs) && identOf(n.Rhs[i]).Name == "nil" {
-							s.clears[f] = true
-						}
-					}
-				case *ast.ExprStmt:
-					if call, ok := n.X.(*ast.CallExpr); ok {
-						if se, ok := ast.Unparen(call.Fun).(*ast.SelectorExpr); ok {
-							if id, ok := ast.Unparen(se.X).(*ast.Ident); ok && info.Uses[id] == recv {
-								sub := summarize(se.Sel.Name, depth+1)
-								for f := range sub.clears {
-									if sub.clearsAll {
-										s.clears[f] = true
-									}
-								}
-							}
-						}
-					}
-				case *ast.IfStmt:
-					// accepted idiom: `if flag { clear }` where flag is a local bool that is set to true
-					// in the same statement list as every mutation (set next to the mutation)
-					if id, ok := ast.Unparen(n.Cond).(*ast.Ident); ok {
-						if o := info.Uses[id]; o != nil && flagSetWithMutation(info, fd, o, resolvedField, recv, methods, func(m string) bool { return summarize(m, depth+1).mutates }) {
-							scan(n.Body.List, flags)
-						}
-					}
-				}
-			}
-		}
-		scan(fd.Body.List, nil)
-		s.clearsAll = len(cacheFields) > 0
-		for f := range cacheFields {
-			if !s.clears[f] {
-				s.clearsAll = false
-			}
-		}
-		return s
-	}
-	// critical sections: methods that take the write lock
-	n := 0
-	var names []string
-	for name := range methods {
-		names = append(names, name)
-	}
-	sort.Strings(names)
-	for _, name := range names {
-		fd := methods[name]
-		takesLock := false
-		ast.Inspect(fd.Body, func(x ast.Node) bool {
-			if call, ok := x.(*ast.CallExpr); ok {
-				if q := qualName(calleeOf(info, call)); q == "sync.RWMutex.Lock" || q == "sync.Mutex.Lock" {
-					takesLock = true
-				}
-			}
-			return true
-		})
-		if !takesLock {
-			continue
-		}
-		s := summarize(name, 0)
-		if !s.mutates {
-			continue
-		}
-		n++
-		var missing []string
-		for f := range cacheFields {
-			if !s.clears[f] {
-				missing = append(missing, f)
-			}
-		}
-		sort.Strings(missing)
-		c.check(len(missing) == 0, "C12-CLEAR", "workspace.Workspace."+name, "critical section that mutates the resolved tree clears the derived caches", fd.Pos(),
-			"all derived caches are cleared unconditionally in the same critical section",
-			"the resolved tree is mutated under the lock but the derived caches "+strings.Join(missing, ", ")+" are not cleared unconditionally in the same critical section: declared sets / formats go stale after an edit")
-	}
-	c.census("C12-CLEAR", "critical sections mutating the resolved tree", n, 2)
-}
-
 // flagSetWithMutation: flag is a local bool; every statement list of fd that contains a mutation of the
 // resolved tree (direct or via a mutating method call) also contains `flag = true`.
 func flagSetWithMutation(info *types.Info, fd *ast.FuncDecl, flag types.Object, resolvedField string, recv types.Object, methods map[string]*ast.FuncDecl, mutating func(string) bool) bool {
